@@ -2,6 +2,7 @@ package c14
 
 import (
 	"fmt"
+	"math"
 	"sort"
 	"testing"
 
@@ -116,25 +117,58 @@ func checkRel(run *stats.Run, f stats.Failer, c RelCase) verdict {
 	if c.S1 == c.E1 || c.S2 == c.E2 {
 		labels = append(labels, "relations-instant")
 	}
+	// open ends as the engine reports them for `_` (p(X)@[S, E] binds MinInt64 / MaxInt64).
+	if c.S1 == math.MinInt64 || c.S2 == math.MinInt64 || c.E1 == math.MaxInt64 || c.E2 == math.MaxInt64 {
+		labels = append(labels, "relations-open-end")
+	}
+	if c.S1 == math.MinInt64 && c.E1 == math.MaxInt64 || c.S2 == math.MinInt64 && c.E2 == math.MaxInt64 {
+		labels = append(labels, "relations-eternal")
+	}
+	// the end points compared by before/after/meets are further apart than MaxInt64.
+	if farApart(c.E1, c.S2) || farApart(c.E2, c.S1) {
+		labels = append(labels, "relations-compared-ends-far-apart")
+	}
 	return verdict{nontrivial: nt, labels: labels}
 }
 
+// relAnchors are the regions (10-point grids of 1 ns steps starting there) end points are drawn from in the
+// "mixed" mode: next to the two open-bound sentinels the engine reports for `_` (MinInt64 / MaxInt64, the
+// sentinel being a grid point), around +-2^62, around 0 (1970, both signs) and 2024.
+var relAnchors = []int64{math.MinInt64, -(int64(1) << 62), -5, nanos(0), int64(1)<<62 - 40, math.MaxInt64 - 9}
+
 func genRelCase(t *rapid.T) RelCase {
-	base := int64(0)
-	switch rapid.IntRange(0, 5).Draw(t, "region") {
-	case 0:
-		base = nanos(0)
-	case 1:
-		base = -(int64(1) << 62)
-	case 2:
-		base = int64(1)<<62 - 40
+	var c RelCase
+	if rapid.IntRange(0, 1).Draw(t, "mode") == 0 {
+		// one region, all four end points on its 10-point grid (many coincidences).
+		base := int64(0)
+		switch rapid.IntRange(0, 5).Draw(t, "region") {
+		case 0:
+			base = nanos(0)
+		case 1:
+			base = -(int64(1) << 62)
+		case 2:
+			base = int64(1)<<62 - 40
+		}
+		unit := rapid.SampledFrom([]int64{1, 1, second}).Draw(t, "unit")
+		if base != 0 && base != nanos(0) {
+			unit = 1
+		}
+		pt := func(label string) int64 { return base + unit*rapid.Int64Range(0, 9).Draw(t, label) }
+		c = RelCase{S1: pt("s1"), E1: pt("e1"), S2: pt("s2"), E2: pt("e2")}
+	} else {
+		// mixed: two regions per case (so that end points still coincide often), every end point from one of
+		// them or - a quarter each - the open bound of its side (start: MinInt64, end: MaxInt64). End points
+		// of one pair may be further apart than MaxInt64, i.e. their int64 difference wraps.
+		regs := [2]int64{rapid.SampledFrom(relAnchors).Draw(t, "regionA"), rapid.SampledFrom(relAnchors).Draw(t, "regionB")}
+		pt := func(label string, open int64) int64 {
+			k := rapid.IntRange(0, 7).Draw(t, label+"-from")
+			if k >= 6 {
+				return open
+			}
+			return regs[k%2] + rapid.Int64Range(0, 9).Draw(t, label)
+		}
+		c = RelCase{S1: pt("s1", math.MinInt64), E1: pt("e1", math.MaxInt64), S2: pt("s2", math.MinInt64), E2: pt("e2", math.MaxInt64)}
 	}
-	unit := rapid.SampledFrom([]int64{1, 1, second}).Draw(t, "unit")
-	if base != 0 && base != nanos(0) {
-		unit = 1
-	}
-	pt := func(label string) int64 { return base + unit*rapid.Int64Range(0, 9).Draw(t, label) }
-	c := RelCase{S1: pt("s1"), E1: pt("e1"), S2: pt("s2"), E2: pt("e2")}
 	if c.S1 > c.E1 {
 		c.S1, c.E1 = c.E1, c.S1
 	}
@@ -142,6 +176,14 @@ func genRelCase(t *rapid.T) RelCase {
 		c.S2, c.E2 = c.E2, c.S2
 	}
 	return c
+}
+
+// farApart: the int64 difference of the two instants is not representable.
+func farApart(a, b int64) bool {
+	if a < b {
+		a, b = b, a
+	}
+	return b < 0 && a > math.MaxInt64+b
 }
 
 func TestC14_Relations(t *testing.T) {
